@@ -10,7 +10,7 @@ import z3
 
 from .values import *  # noqa: F401,F403
 from .values import V, VNone, NONE, VInt, VBool, VBytes, VStr, VFloat, VList, VTuple, VSeq, VDict, DEntry, VObj, \
-    VClass, VEnum, VFunc, VBuiltin, VTag, VOpaque, VExc, PyRaise, OutOfSubset, mk, conc_key, BSort, SSort
+    VClass, VEnum, VFunc, VBuiltin, VTag, VOpaque, VExc, VLib, PyRaise, OutOfSubset, mk, conc_key, BSort, SSort
 from . import front
 from .front import FuncInfo, ClassInfo, ModuleInfo
 
@@ -861,13 +861,9 @@ class Interp:
     def ex_Call(self, n, env):
         if isinstance(n.func, ast.Name) and n.func.id == "old" and env.lookup("__old_env__") is not None:
             oe = env.lookup("__old_env__")
-            cur = (self.fs_bin, self.fs_txt, self.fs_exists)
-            if oe.fs is not None:
-                self.fs_bin, self.fs_txt, self.fs_exists = oe.fs
-            try:
+            from .ghostfs import OldView
+            with OldView(self.fs, oe.fs):
                 return self.eval(n.args[0], oe.env)
-            finally:
-                self.fs_bin, self.fs_txt, self.fs_exists = cur
         if isinstance(n.func, ast.Name) and n.func.id == "super" and not n.args:
             cls = env.lookup("__class__")
             slf = env.lookup("__self__")
@@ -1059,6 +1055,8 @@ class Interp:
             if isinstance(args[0], VEnum) and args[0].cls is ci:
                 return args[0]
             self.raise_(ValueError, f"not a valid {ci.name}")
+        if any(isinstance(b, type) and issubclass(b, BaseException) for b in ci.py_bases()):
+            return VExc(self.pyclass_of(vc), tuple(args))
         obj = VObj(ci)
         init, owner = ci.lookup("__init__")
         if init is not None:
@@ -1097,7 +1095,7 @@ class Interp:
             elif p in kwargs:
                 env.set(p, kwargs.pop(p))
             elif defaults[i] is not None:
-                env.set(p, self.eval(defaults[i], denv))
+                env.set(p, self._default_value(defaults[i], denv))
             else:
                 self.raise_(TypeError, f"{fi.qualname}() missing argument {p}")
         extra = args[len(params):]
@@ -1116,6 +1114,19 @@ class Interp:
             env.set(a.kwarg.arg, VDict([(k, v) for k, v in kwargs.items()]))
         elif kwargs:
             self.raise_(TypeError, f"{fi.qualname}() got unexpected keyword {list(kwargs)}")
+
+    def _default_value(self, node, denv):
+        """Default argument values are created ONCE at definition time: a mutable default is shared by all calls, so
+        its state at entry is whatever earlier calls left behind -> havoc (library objects) / flag writes (containers)."""
+        v = self.eval(node, denv)
+        if isinstance(node, (ast.Call, ast.List, ast.Dict, ast.Set, ast.ListComp, ast.DictComp)):
+            if isinstance(v, VLib) and v.kind == "IntelHex":
+                from .stubs import ValSort
+                v.f["state"] = VOpaque(z3.Const(self.fresh_name("shared_default_state"), ValSort), "hexmap")
+                self.assumptions_used.add("mutable default argument: entry state havoced (shared across calls)")
+            elif isinstance(v, (VList, VDict, VObj, VLib)):
+                v.global_ = True
+        return v
 
     def contract_key(self, fi: FuncInfo):
         return (fi.module.relpath, fi.qualname)
